@@ -5,7 +5,9 @@
 (*        table size 2^12).                                                        *)
 (*                                                                                 *)
 (* Part 1 - the invariants a normalised table must satisfy for the coder to be     *)
-(* lossless.  They are pure operators over sequences and are evaluated by TLC      *)
+(* lossless (present => slot, slot ranges disjoint and inside the table) and the   *)
+(* stronger promise of the design (no slot wasted).  Pure operators, evaluated     *)
+(* by TLC                                                                          *)
 (*   (a) on every reachable final state of the normaliser below (MC_FreqNorm), and *)
 (*   (b) on the REAL tables the harness reads out of zipora after every training   *)
 (*       (Trace_Codec, event "table").                                             *)
@@ -28,18 +30,31 @@ Sum(s) == SumTo(s, Len(s))
 PresentHasSlot(freq, norm) == \A i \in 1..Len(freq) : freq[i] > 0 => norm[i] >= 1
 (* the symbols with a zero slot although present (for reporting / deviation guards) *)
 Starved(freq, norm) == { i \in 1..Len(freq) : freq[i] > 0 /\ norm[i] = 0 }
-(* the slots add up to the table size: state mod TOT always hits exactly one symbol *)
+(* the slots fit the table: with cumulative starts the slot ranges are disjoint and lie  *)
+(* inside 0..total-1, so state mod total identifies at most one symbol.  THIS is what    *)
+(* losslessness needs.                                                                    *)
+SlotsFit(norm, total) == Sum(norm) <= total
+(* the slots add up to the table size exactly: no slot is wasted.  The normaliser below  *)
+(* guarantees it (DoneSumIsTotal); a real table that is under-full codes correctly but   *)
+(* wastes code space - reported as a mechanism observation, never as a violation.        *)
 SumIsTotal(norm, total) == Sum(norm) = total
-(* slot ranges tile 0..total-1 in symbol order *)
+(* slot ranges tile a prefix of 0..total-1 in symbol order: the range of every symbol that *)
+(* owns slots starts where the slots of the symbols before it end (the start of a symbol  *)
+(* without slots means nothing)                                                            *)
+RECURSIVE PrefixSums(_, _)
+PrefixSums(s, n) == IF n = 0 THEN <<0>> ELSE LET p == PrefixSums(s, n - 1) IN Append(p, p[n] + s[n])
 StartsCumulative(start, norm) ==
     /\ Len(start) = Len(norm)
-    /\ Len(start) > 0 => start[1] = 0
-    /\ \A i \in 2..Len(start) : start[i] = start[i - 1] + norm[i - 1]
+    /\ LET ps == PrefixSums(norm, Len(norm)) IN
+       \A i \in 1..Len(norm) : norm[i] > 0 => start[i] = ps[i]
 
+(* what a real table is held to *)
 TableOK(freq, norm, total) ==
     /\ Len(freq) = Len(norm)
     /\ PresentHasSlot(freq, norm)
-    /\ SumIsTotal(norm, total)
+    /\ SlotsFit(norm, total)
+(* what the design additionally promises *)
+TableFull(freq, norm, total) == TableOK(freq, norm, total) /\ SumIsTotal(norm, total)
 
 (* ------------------------------------------------------------------ part 2 *)
 CONSTANTS TOT,       \* table size (4096 in the code)
